@@ -433,11 +433,28 @@ B3_TABLED = {"ts_parser__breakdown_top_of_stack":
 RELEASERS = {"ts_subtree_release": 1, "ts_current_free": 0, "ts_subtree_array_delete": 1, "ts_stack_delete": 0, "ts_tree_delete": 0, "ts_language_delete": 0}
 
 
+from flow import cond_cases
+
+
 class UseAfterRelease(Monitor):
     """m: 0 = live, 1 = this variable's reference was released/freed on this path."""
 
-    def __init__(self, fn, vid, rel_pts, def_pts):
+    def __init__(self, fn, vid, rel_pts, def_pts, cond_rel=None):
         self.fn, self.vid, self.rel, self.defs = fn, vid, rel_pts, def_pts
+        self.cond_rel = cond_rel or {}      # callee -> (argument index, return truthiness on which *arg was released)
+
+    def edge(self, m, bid, edge, cond, truth, s):
+        if cond is None or truth is None or not self.cond_rel:
+            return m
+        for case in cond_cases(cond, truth):
+            for ex, tr in case:
+                c = strip(ex)
+                if c.get("k") == "call" and callee_name(c) in self.cond_rel:
+                    idx, when = self.cond_rel[callee_name(c)]
+                    a = strip(c["a"][idx]) if idx < len(c.get("a", [])) else {}
+                    if a.get("k") == "un" and a.get("op") == "&" and strip(a["e"]).get("k") == "ref" and strip(a["e"]).get("id") == self.vid and tr == when:
+                        return 1
+        return m
 
     def elem(self, m, pt, e, s):
         if pt in self.defs:
@@ -452,12 +469,47 @@ class UseAfterRelease(Monitor):
         return m
 
 
+def conditional_releasers(F):
+    """Functions that release what a pointer parameter points at, on the way to one kind of return only:
+    {name: (parameter index, truthiness of the return value on which `*param` may have been released)}."""
+    from flow import reachable_blocks
+    out = {}
+    for fn in F.fn_list:
+        if not fn.file.startswith("lib/src") or not fn.blocks:
+            continue
+        pidx = {p["id"]: i for i, p in enumerate(fn.params)}
+        for pt, c in fn.calls():
+            if callee_name(c) != "ts_subtree_release" or len(c.get("a", [])) < 2:
+                continue
+            a = strip(c["a"][1])
+            if not (a.get("k") == "un" and a.get("op") == "*" and strip(a["e"]).get("k") == "ref" and strip(a["e"]).get("id") in pidx):
+                continue
+            after = reachable_blocks(fn, pt[0])
+            truths = set()
+            for rp, e in fn.points():
+                if e.get("k") == "ret" and e.get("e") is not None and rp[0] in after:
+                    r = strip(e["e"])
+                    truths.add(bool(r.get("v")) if r.get("k") == "int" else None)
+            if len(truths) == 1 and None not in truths:
+                out[fn.name] = (pidx[strip(a["e"])["id"]], truths.pop())
+    return out
+
+
 def rule_b3(ctx, F):
     n = 0
+    cond_rel = conditional_releasers(F)
+    ctx.analysed["conditional_releasers"] = sorted("%s(arg %d) when it returns %s" % (k, v[0], "true" if v[1] else "false") for k, v in cond_rel.items())
+    ctx.floor("functions that release *param on one kind of return (ts_parser__check_progress)", len(cond_rel), 1)
     for fn in F.fn_list:
         if not fn.file.startswith("lib/src"):
             continue
         cand = {}
+        for pt, c in fn.calls():
+            nm = callee_name(c)
+            if nm in cond_rel and cond_rel[nm][0] < len(c.get("a", [])):
+                a = strip(c["a"][cond_rel[nm][0]])
+                if a.get("k") == "un" and a.get("op") == "&" and strip(a["e"]).get("k") == "ref" and strip(a["e"]).get("dk") in ("local", "param"):
+                    cand.setdefault((strip(a["e"])["id"], strip(a["e"])["name"]), set())
         for pt, c in fn.calls():
             nm = callee_name(c)
             if nm in RELEASERS and len(c.get("a", [])) > RELEASERS[nm]:
@@ -472,7 +524,7 @@ def rule_b3(ctx, F):
                         if pt not in rel:
                             dpts.add(pt)
             n += 1
-            s = Search(fn, UseAfterRelease(fn, vid, rel, dpts), track=True)
+            s = Search(fn, UseAfterRelease(fn, vid, rel, dpts, cond_rel), track=True)
             v = s.run(0)
             key = "%s:%s" % (fn.name, nm)
             if v is not None and fn.name in B3_TABLED and set(fn.macro(v.pt)) & {"LOG", "TREE_NAME", "SYM_NAME"}:
